@@ -374,6 +374,64 @@ func runC01(c *mon.Ctx) {
 			}
 		}
 	}
+	// (e) the same questions from several goroutines at once: canonicalisation and the number check are functions of
+	// their arguments, whoever else is calling
+	if c.Shard == 0 {
+		type q struct {
+			text []byte
+			ver  gmsl.RoomVersion
+		}
+		var qs []q
+		for i, lit := range gen.NumberAtoms {
+			text := gen.Plain().Bytes(ref.O("b", ref.A(ref.I(1), ref.NumLit(lit)), "a", ref.S("x\u00e9")))
+			qs = append(qs, q{text, versions[i%len(versions)]}, q{text, versions[(i+7)%len(versions)]})
+		}
+		c.Case("concurrent-calls", map[string]any{"questions": len(qs)}, func() {
+			c.Nontrivial("concurrent-calls")
+			c.ConcurrentReplay("canon", len(qs), func(i int) string {
+				out, err := gmsl.EnforcedCanonicalJSON(qs[i].text, qs[i].ver)
+				out2, err2 := gmsl.CanonicalJSON(qs[i].text)
+				return fmt.Sprintf("%s %v | %s %v", out, err != nil, out2, err2 != nil)
+			})
+		})
+		// (f) a history: one buffer of the caller's holds a text that passes the number check, is rewritten in place with a
+		// text of the same length that does not, and is asked about again - and then the same text from a fresh buffer
+		for _, pair := range [][2]string{{`{"a":100}`, `{"a":1.5}`}, {`{"a":100}`, `{"a":1e5}`}, {`{"a":[10]}`, `{"a":[-0]}`}, {`[9007199254740991]`, `[9007199254740992]`}, {`{"a":1000,"b":2}`, `{"a":1E+2,"b":2}`}} {
+			for _, ver := range versions {
+				tr := ref.Traits(string(ver))
+				if tr == nil || !tr.EnforceCanon {
+					continue
+				}
+				name := "enforced:buffer-rewritten-in-place:" + pair[1]
+				c.Case(name, map[string]any{"first": pair[0], "then": pair[1], "version": ver}, func() {
+					c.Nontrivial(name + string(ver))
+					c.Count("enforced_buffer_rewritten_in_place")
+					buf := []byte(pair[0])
+					if _, err := gmsl.EnforcedCanonicalJSON(buf, ver); err != nil {
+						c.Failf("enforced:rejects-valid:v"+string(ver), "EnforcedCanonicalJSON(%q, %s) = error %v", pair[0], ver, err)
+						return
+					}
+					impl := gmsl.MustGetRoomVersion(ver)
+					_ = impl.CheckCanonicalJSON(buf)
+					copy(buf, pair[1])
+					if _, err := gmsl.EnforcedCanonicalJSON(buf, ver); err == nil {
+						c.Failf("enforced:accepts:after-the-buffer-held-a-valid-text", "EnforcedCanonicalJSON(%q, %s) accepts the text when the caller's buffer held %q at the call before", pair[1], ver, pair[0])
+					}
+					if err := impl.CheckCanonicalJSON(buf); err == nil {
+						c.Failf("enforced:accepts:after-the-buffer-held-a-valid-text", "CheckCanonicalJSON(%q) (v%s) accepts the text when the caller's buffer held %q at the call before", pair[1], ver, pair[0])
+					}
+					if _, err := gmsl.EnforcedCanonicalJSON([]byte(pair[1]), ver); err == nil {
+						c.Failf("enforced:accepts:after-the-buffer-held-a-valid-text", "EnforcedCanonicalJSON(%q, %s) accepts the text from a fresh buffer after the history above", pair[1], ver)
+					}
+					// and back: the valid text is valid again
+					copy(buf, pair[0])
+					if _, err := gmsl.EnforcedCanonicalJSON(buf, ver); err != nil {
+						c.Failf("enforced:rejects-valid:after-the-buffer-held-an-invalid-text", "EnforcedCanonicalJSON(%q, %s) = error %v after the buffer held %q", pair[0], ver, err, pair[1])
+					}
+				})
+			}
+		}
+	}
 	c.Floor("canonicalised", 100)
 	c.Floor("invalid_texts", 50)
 	c.Floor("with_key_needing_escape", 20)
